@@ -37,7 +37,7 @@ RULE = ('ISO: one case = one worker lifetime (start method, quota 1-5/none, syn-
         'POOL: one case = one real-pool scenario. PARENT: one case = one history of cancel/ACK/READY deliveries.')
 ASSUMPTIONS = [
     'the harness plays the parent in lane ISO: SYN answers are sent only after the ACK was read (as ApplyResult._ack does)',
-    'wall-clock upper bounds (worker silent for 25 s, exit later than 20 s after the last credit) are re-run alone before being reported',
+    'a worker sleeping in read() on its own in/syn-queue with no CPU use between two samples 1 s apart, while the harness owes it no message, is reported as deadlocked (state-based, x86_64 /proc/<pid>/syscall); remaining wall-clock upper bounds (worker silent for 25 s, exit later than 20 s after the last credit) are re-run alone before being reported',
     'the never-credited lane (30 s consumption guard) runs in the thorough tier only',
     'READY payloads are checked for success flag / tag / exception family only (content fidelity is C12)',
 ]
@@ -184,6 +184,10 @@ def run_iso_spec(spec, rec):
         h = drive_lifetime(p, rec)
         judge_lifetime(p, h, rec)
         rec.flush()
+        if h['status'] in ('deadlock', 'silent', 'guard_exit_never'):
+            # every further lifetime of a tree that hangs costs the same wait
+            rec.count('iso:lifetimes_skipped_after_hang', spec['lifetimes'] - n - 1)
+            break
 
 
 class Life:
@@ -261,6 +265,14 @@ def drive_lifetime(p, rec):
     t_last_credit = None
     held_late = False
     status = 'ok'
+    last_block = None
+    inodes = {}
+    for name, q in (('inq', inq), ('synq', synq)):
+        if q is not None:
+            try:
+                inodes[os.fstat(q._reader.fileno()).st_ino] = name
+            except OSError:
+                pass
     try:
         while True:
             msg = _recv(outq, 0.25)
@@ -299,6 +311,18 @@ def drive_lifetime(p, rec):
                         inq.put(None)
                         t_last = time.monotonic()
                     continue
+                if now - t_last > 3.0:
+                    # not a clock verdict: a worker that sleeps in read() on
+                    # its in-queue / syn-queue, burning no CPU between two
+                    # samples, while the parent owes it nothing, is stuck
+                    b = _blocked_sample(pid, inodes)
+                    if b is not None and last_block is not None and b == last_block[0] \
+                            and now - last_block[1] >= 1.0:
+                        status = 'deadlock'
+                        h['blocked_on'] = b[0]
+                        break
+                    if last_block is None or b != last_block[0]:
+                        last_block = (b, now)
                 if now - t_last > silent_limit:
                     status = 'silent'
                     break
@@ -391,6 +415,29 @@ def drive_lifetime(p, rec):
             except OSError:
                 pass
     return h
+
+
+def _blocked_sample(pid, inodes):
+    """(queue name, cpu ticks) when the process sleeps in read() on one of the
+    given pipes, else None"""
+    try:
+        with open('/proc/%d/syscall' % pid) as f:
+            sc = f.read().split()
+        with open('/proc/%d/stat' % pid) as f:
+            st = f.read()
+        rest = st[st.rindex(')') + 2:].split()
+        if rest[0] != 'S' or not sc or sc[0] != '0':      # read(2) on x86_64
+            return None
+        fd = int(sc[1], 16)
+        link = os.readlink('/proc/%d/fd/%d' % (pid, fd))
+        if not link.startswith('pipe:['):
+            return None
+        name = inodes.get(int(link[6:-1]))
+        if name is None:
+            return None
+        return (name, int(rest[11]) + int(rest[12]))
+    except (OSError, ValueError, IndexError):
+        return None
 
 
 def _plain_args(typ, args, bpool):
@@ -628,7 +675,7 @@ def judge_lifetime(p, h, rec):
           in_progress=state, events_tail=ev[-4:])
     elif h['status'] == 'guard_exit_never':
         V('guard_exit_never', qattr)
-    elif h['status'] == 'silent':
+    elif h['status'] in ('silent', 'deadlock'):
         if state is not None:
             phase = 'awaiting_ready'
         elif quota is not None and executed >= quota:
@@ -639,8 +686,13 @@ def judge_lifetime(p, h, rec):
             phase = 'awaiting_ack'
         else:
             phase = 'other'
-        V('worker_silent', dict(qattr, phase=phase), executed=executed, acked=len(acked),
-          sent=h['nsent'], quota=quota, events_tail=ev[-4:])
+        if h['status'] == 'deadlock':
+            V('worker_deadlocked', dict(qattr, phase=phase, blocked_on=h.get('blocked_on')),
+              executed=executed, acked=len(acked), sent=h['nsent'], quota=quota,
+              events_tail=ev[-4:])
+        else:
+            V('worker_silent', dict(qattr, phase=phase), executed=executed, acked=len(acked),
+              sent=h['nsent'], quota=quota, events_tail=ev[-4:])
 
     # ---- evidence --------------------------------------------------------
     kinds = sorted({j['desc']['kind'] for j in jobs if j['id'] in acked})
